@@ -16,7 +16,7 @@ def gen_cases(ck):
     def add(script, owner, tag, info):
         cases.append({"script": script, "hyp": [], "owner": owner, "tag": tag, "info": info})
 
-    n_cases = 2600 if quick else 10000
+    n_cases = 1800 if quick else 10000
     for i in range(n_cases):
         nconn = rng.randrange(2, 6)
         tags = sg.Tags()
